@@ -38,6 +38,16 @@ MUTATIONS = [
     ("invert-keeps-order", "jordancurve.py", "        for i in range(nsegs - 1, -1, -1):\n            new_segments.append(segments[i].invert())", "        for i in range(nsegs):\n            new_segments.append(segments[i].invert())", {"C06": 1}, ["invert"]),
 ]
 
+MUTATIONS += [
+    ("sub-without-complement", "shape.py", "        return self & (~value)", "        return self & value", {"C01": 1}, ["dispatch[sub", "dispatch[xor"]),
+    ("xor-with-and", "shape.py", "        return (self - other) | (other - self)", "        return (self - other) & (other - self)", {"C01": 1}, ["dispatch[xor"]),
+    ("or-shortcut-wrong-operand", "shape.py", "        if other in self:\n            return copy(self)\n        if self in other:\n            return copy(other)\n        new_jordans = FollowPath.or_shapes", "        if other in self:\n            return copy(other)\n        if self in other:\n            return copy(other)\n        new_jordans = FollowPath.or_shapes", {"C01": 1}, ["dispatch[or"]),
+    ("whole-sub-returns-other", "shape.py", "    def __sub__(self, other: BaseShape) -> BaseShape:\n        return ~other", "    def __sub__(self, other: BaseShape) -> BaseShape:\n        return other", {"C01": 1}, ["dispatch[sub,Whole"]),
+    ("and-empty-result-whole", "shape.py", "        if len(new_jordans) == 0:\n            return EmptyShape()", "        if len(new_jordans) == 0:\n            return WholeShape()", {"C01": 1}, ["dispatch[and"]),
+    ("or-returns-self-not-copy", "shape.py", "        if isinstance(other, EmptyShape):\n            return copy(self)\n        if other in self:\n            return copy(self)\n        if self in other:\n            return copy(other)\n        new_jordans = FollowPath.or_shapes", "        if isinstance(other, EmptyShape):\n            return self\n        if other in self:\n            return copy(self)\n        if self in other:\n            return copy(other)\n        new_jordans = FollowPath.or_shapes", {"C08": 1}, ["dispatch[or"]),
+    ("singleton-second-instance", "shape.py", "        if cls.__instance is None:\n            cls.__instance = super(SingletonShape, cls).__new__(cls)\n        return cls.__instance", "        cls.__instance = super(SingletonShape, cls).__new__(cls)\n        return cls.__instance", {"C06": 1}, ["singletons"]),
+]
+
 HARMLESS = [
     ("rename-local", "curve.py", "        denom = vector0.cross(vector1)\n        if denom != 0:  # Lines are not parallel\n            param0 = diff0.cross(vector1) / denom\n            param1 = diff0.cross(vector0) / denom",
      "        den = vector0.cross(vector1)\n        denom = den\n        if den != 0:  # Lines are not parallel\n            param0 = diff0.cross(vector1) / den\n            param1 = diff0.cross(vector0) / den", {"C14": 0}, ["lines"]),
